@@ -3,35 +3,40 @@
 (* The Parser object as a state machine: the lexer's line counter and the  *)
 (* "EEMS 2.0 seen" flag live in the object, so what a parse reports may    *)
 (* depend on what the same object parsed before.  Design switches:         *)
-(*   ResetOnParse   both are reset at the start of every parse()           *)
+(*   ResetWhen      "start": both are reset at the start of every parse()  *)
+(*                  "end": after a successful parse (a failed parse leaves *)
+(*                  them dirty) | "never" (pinned)                         *)
 (*   CrLfIsOne      "\r\n" counts as one line break                        *)
 (*   CmdLineFrom    a command's line is that of its first token ("result") *)
 (*                  or of the command-name token ("name": pinned)          *)
-(* A text is <<id, lead, crlf, v2, split, breaks>>: line breaks before the *)
-(* first command, CRLF line endings, contains an EEMS 2.0 style command,   *)
-(* result name and command name on different lines, total line breaks.     *)
+(* A text is <<id, lead, crlf, v2, split, breaks, bad>>: line breaks before *)
+(* the first command, CRLF line endings, contains an EEMS 2.0 style        *)
+(* command, result name and command name on different lines, total line    *)
+(* breaks (lexed before the error for a malformed text), malformed.        *)
 (***************************************************************************)
 EXTENDS Integers, Sequences, TLC
-CONSTANTS ResetOnParse, CrLfIsOne, CmdLineFrom, NParsers, MaxHist
-Texts == { <<"t_plain", 0, FALSE, FALSE, FALSE, 1>>, <<"t_lead", 3, FALSE, FALSE, FALSE, 6>>, <<"t_crlf", 2, TRUE, FALSE, FALSE, 4>>,
-           <<"t_v2", 1, FALSE, TRUE, FALSE, 2>>, <<"t_split", 1, FALSE, FALSE, TRUE, 2>> }
+CONSTANTS ResetWhen, CrLfIsOne, CmdLineFrom, NParsers, MaxHist
+Texts == { <<"t_plain", 0, FALSE, FALSE, FALSE, 1, FALSE>>, <<"t_lead", 3, FALSE, FALSE, FALSE, 6, FALSE>>, <<"t_crlf", 2, TRUE, FALSE, FALSE, 4, FALSE>>,
+           <<"t_v2", 1, FALSE, TRUE, FALSE, 2, FALSE>>, <<"t_split", 1, FALSE, FALSE, TRUE, 2, FALSE>>,
+           <<"t_bad", 2, FALSE, FALSE, FALSE, 4, TRUE>>, <<"t_badv2", 1, FALSE, TRUE, FALSE, 3, TRUE>> }
 VARIABLES ctr, flag, hist
 vars == <<ctr, flag, hist>>
 Init == ctr = [p \in 1..NParsers |-> 1] /\ flag = [p \in 1..NParsers |-> FALSE] /\ hist = <<>>
 Counted(t, n) == IF t[3] /\ ~CrLfIsOne THEN 2 * n ELSE n
 Parse(p, t) ==
     /\ Len(hist) < MaxHist
-    /\ LET base == IF ResetOnParse THEN 1 ELSE ctr[p]
-           f0 == IF ResetOnParse THEN FALSE ELSE flag[p]
+    /\ LET base == IF ResetWhen = "start" THEN 1 ELSE ctr[p]
+           f0 == IF ResetWhen = "start" THEN FALSE ELSE flag[p]
            line == base + Counted(t, t[2]) + (IF CmdLineFrom = "name" /\ t[5] THEN Counted(t, 1) ELSE 0)
            ver == IF f0 \/ t[4] THEN 2 ELSE 3
-       IN /\ ctr' = [ctr EXCEPT ![p] = base + Counted(t, t[6])]
-          /\ flag' = [flag EXCEPT ![p] = f0 \/ t[4]]
-          /\ hist' = Append(hist, <<p, t, line, ver>>)
+           cleanEnd == ResetWhen = "end" /\ ~t[7]              \* the reset after the parse is skipped when the parse raises
+       IN /\ ctr' = [ctr EXCEPT ![p] = IF cleanEnd THEN 1 ELSE base + Counted(t, t[6])]
+          /\ flag' = [flag EXCEPT ![p] = IF cleanEnd THEN FALSE ELSE f0 \/ t[4]]
+          /\ hist' = Append(hist, IF t[7] THEN <<p, t, -1, 0>> ELSE <<p, t, line, ver>>)
 Next == \E p \in 1..NParsers, t \in Texts : Parse(p, t)
 \* C11: the first command's reported line is its true line, whatever was parsed before
-LinesTrue == \A k \in 1..Len(hist) : hist[k][3] = hist[k][2][2] + 1
+LinesTrue == \A k \in 1..Len(hist) : ~hist[k][2][7] => hist[k][3] = hist[k][2][2] + 1
 \* C16: the reported version depends only on the text
-VersionByText == \A k \in 1..Len(hist) : hist[k][4] = (IF hist[k][2][4] THEN 2 ELSE 3)
+VersionByText == \A k \in 1..Len(hist) : ~hist[k][2][7] => hist[k][4] = (IF hist[k][2][4] THEN 2 ELSE 3)
 Report == Len(hist) = MaxHist => PrintT(<<"HIST", [k \in 1..Len(hist) |-> <<hist[k][1], hist[k][2][1]>>]>>)
 =============================================================================
